@@ -275,6 +275,7 @@ class Report:
             path.write_text(json.dumps(
                 {"property": self.prop, "kind": "failing-input", "what": v["what"], "case": v["case"],
                  "detail": v["detail"], "more": len(self.violations) - 1,
+                 "violation_classes": _classes(self.violations),
                  "broken_obligations": self.audit.get("failures", []),
                  "correspondence_breaks": self.corr_breaks[:3]}, indent=1, default=str))
             print(f"VIOLATION property={self.prop} replay={path}")
@@ -286,6 +287,7 @@ class Report:
                  "broken_obligations": self.audit.get("failures", []),
                  "build_log_tail": self.audit.get("build_log_tail"),
                  "correspondence_breaks": self.corr_breaks[:5],
+                 "correspondence_break_classes": _classes(self.corr_breaks),
                  "searched": self.evaluations}, indent=1, default=str))
             print(f"VIOLATION property={self.prop} replay={path} no-failing-input-found")
             rc = 1
@@ -318,6 +320,14 @@ class Report:
         }
         (EVIDENCE / f"{self.prop}.json").write_text(json.dumps(ev, indent=1, default=str))
         return rc
+
+
+def _classes(items: list[dict]) -> dict:
+    out: dict[str, int] = {}
+    for v in items:
+        k = re.sub(r"\d+", "#", str(v.get("what", "")))[:90]
+        out[k] = out.get(k, 0) + 1
+    return dict(sorted(out.items(), key=lambda kv: -kv[1])[:25])
 
 
 def corpus_cases(prop: str) -> list[dict]:
